@@ -1,0 +1,11 @@
+//go:build !verif
+
+package io
+
+import "io"
+
+// verifBeforeWrite is a no-op unless built with the "verif" tag (verification hooks).
+func verifBeforeWrite(io.WriterAt, int64, []byte) (int, error, bool) { return 0, nil, false }
+
+// VerifTrace is a no-op unless built with the "verif" tag (verification hooks).
+func VerifTrace(any, string, int64, []byte) {}
